@@ -125,6 +125,11 @@ Case gen_c01(uint64_t seed, int tier, bool quiesce)
     cap = 4096;
   }
   c.cfg["cap"] = cap;
+  if (cap >= 32 && Rng(seed ^ 0x9ca9).chance(1, 5))
+  {
+    // the constructor is asked for a capacity that is not a power of two and must round it up to `cap`
+    c.cfg["req"] = cap - Rng(seed ^ 0x9caa).range(1, cap / 2 - 1);
+  }
   c.cfg["percent"] = r.pick<int64_t>({0, 5, 5, 25, 50, 100});
   int nops = static_cast<int>(r.range(quiesce ? 10 : 30, tier ? 600 : 300));
   auto size = [&]() -> int64_t
@@ -963,6 +968,27 @@ Verdict run_case(Case const& c, std::string const&)
     return run_with<UnboundedSPSCQueue, true>(c, [=]() { return new UnboundedSPSCQueue(cap, maxc); });
   }
   int pct = static_cast<int>(c.get("percent", 5));
+  size_t const model_cap = cap;
+  cap = static_cast<size_t>(c.get("req", static_cast<int64_t>(cap))); // what the constructor is asked for
+  {
+    // the capacity (and with it the index mask) must be the next power of two of the request
+    size_t got = 0;
+    switch (c.get("type", 3))
+    {
+    case 0: got = BoundedSPSCQueueImpl<uint8_t>(static_cast<uint8_t>(cap)).capacity(); break;
+    case 1: got = BoundedSPSCQueueImpl<uint16_t>(static_cast<uint16_t>(cap)).capacity(); break;
+    case 2: got = BoundedSPSCQueueImpl<uint32_t>(static_cast<uint32_t>(cap)).capacity(); break;
+    default: got = BoundedSPSCQueueImpl<size_t>(cap).capacity(); break;
+    }
+    if (got != model_cap)
+    {
+      Verdict bad;
+      bad.kind = 1;
+      bad.tag = "capacity_is_not_the_next_power_of_two_of_the_request";
+      bad.detail = "requested " + std::to_string(cap) + ", capacity() reports " + std::to_string(got) + ", expected " + std::to_string(model_cap);
+      return bad;
+    }
+  }
   switch (c.get("type", 3))
   {
   case 0:
